@@ -235,10 +235,19 @@ fn run_batch(property: &'static str, sc: &'static dyn Scenario, n: u64, tier: Ti
                     }
                     let seed = run_seed(verif_seed, property, sc.name(), i);
                     let case = sc.gen(seed, tier, i);
-                    let out = sc.run(&case);
+                    let out = match std::panic::catch_unwind(std::panic::AssertUnwindSafe(|| sc.run(&case))) {
+                        Ok(o) => o,
+                        Err(p) => {
+                            // a panic outside the instance under test is a harness error, never a verdict
+                            let msg = p.downcast_ref::<String>().cloned().or_else(|| p.downcast_ref::<&str>().map(|s| s.to_string())).unwrap_or_default();
+                            acc.stats.inc("HARNESS_PANIC");
+                            eprintln!("harness error: scenario {} run {i} (seed {seed}) panicked: {msg}", sc.name());
+                            continue;
+                        }
+                    };
                     acc.runs += 1;
                     acc.evaluations += out.evaluations.max(1);
-                    acc.sim_ns += out.sim_ns;
+                    acc.sim_ns = acc.sim_ns.saturating_add(out.sim_ns);
                     acc.all_sigs.insert(out.signature);
                     if out.nontrivial {
                         acc.nontrivial_sigs.insert(out.signature);
@@ -267,7 +276,7 @@ fn run_batch(property: &'static str, sc: &'static dyn Scenario, n: u64, tier: Ti
                 let mut t = total.lock().unwrap();
                 t.runs += acc.runs;
                 t.evaluations += acc.evaluations;
-                t.sim_ns += acc.sim_ns;
+                t.sim_ns = t.sim_ns.saturating_add(acc.sim_ns);
                 t.all_sigs.extend(acc.all_sigs);
                 t.nontrivial_sigs.extend(acc.nontrivial_sigs);
                 t.stats.merge(&acc.stats);
@@ -483,7 +492,7 @@ pub fn run_check(def: &CheckDef, tier: Tier, verif_seed: u64) -> i32 {
             nontrivial.insert((sname, *s));
         }
         stats.merge(&acc.stats);
-        sim_ns += acc.sim_ns;
+        sim_ns = sim_ns.saturating_add(acc.sim_ns);
         for (k, v) in &acc.cross {
             *cross.entry(k.clone()).or_insert(0) += v;
         }
@@ -567,6 +576,21 @@ pub fn run_check(def: &CheckDef, tier: Tier, verif_seed: u64) -> i32 {
 
     let wall = t0.elapsed().as_secs_f64();
     let extra = def.extra.map(|f| f(tier, verif_seed)).unwrap_or(Value::Null);
+    let mut harness_error = stats.sums.get("HARNESS_PANIC").copied().unwrap_or(0) > 0;
+    if !extra.is_null() {
+        if let Some(ls) = extra["lines"].as_array() {
+            for l in ls {
+                if let Some(l) = l.as_str() {
+                    println!("{l}");
+                }
+            }
+        }
+        n_violations += extra["violations"].as_u64().unwrap_or(0);
+        if let Some(e) = extra["harness_error"].as_str() {
+            eprintln!("harness error: {e}");
+            harness_error = true;
+        }
+    }
     let mut coverage = json!({
         "evaluations": total_eval,
         "distinct_nontrivial": nontrivial.len(),
@@ -611,6 +635,8 @@ pub fn run_check(def: &CheckDef, tier: Tier, verif_seed: u64) -> i32 {
     );
     if n_violations > 0 {
         1
+    } else if harness_error {
+        2
     } else {
         0
     }
